@@ -7,6 +7,9 @@ Three correspondence parts:
          (ties DV.Json.Model.parse to CPython on a superset of the printer's image, error cases included)
   ext    DcmMetaExtensions built with make_empty + values -> to_json / str / from_json / from_runtime_repr /
          .nii and .nii.gz files, twice; plus a separate stream of invalid extensions
+  ext_hist  histories of a live extension object: encoded/written (or loaded from a file), edited in place through the
+         DcmMeta API, written again (once or twice); the reloaded extension and the raw bytes in the file are compared
+         with the CURRENT in-memory extension
 Values travel between generator, runner and Coq printer in a tagged form ("tv") that does not depend on
 JSON's own float/int/unicode handling:
   ["n"] | ["b",bool] | ["i","<decimal>"] | ["f","<float.hex()>"] | ["s",[code points]] | ["a",[tv..]] | ["o",[[[cps],tv]..]]
@@ -20,7 +23,7 @@ COQ_PROPS = "Props/C09.v"
 THEOREMS = ["C09_parse_print", "C09_print_stable", "C09_print_int_roundtrip", "C09_print_injective",
             "C09_to_json_defined_iff_valid", "C09_from_to", "C09_from_runtime_repr_iff_valid",
             "C09_str_is_json", "C09_constructors_agree", "C09_file_roundtrip_partial",
-            "C09_save_load_twice_partial"]
+            "C09_save_load_twice_partial", "C09_history_step_partial", "C09_history_cache_irrelevant_partial"]
 ALLOWED_AXIOMS = []
 RULE = ("codec: random JSON values (ints up to ~1200 digits, floats drawn from random bit patterns, subnormals, "
         "extreme exponents, -0.0, NaN/Infinity; strings over control characters, quotes, backslashes, DEL, Latin-1, "
@@ -112,9 +115,18 @@ def ftok(x):
     return float.__repr__(x)
 
 
+def ctext(s):
+    """A text as [str]: pure printable-ASCII/newline texts as a Coq string literal (fast to parse), others as code points."""
+    if s and all(32 <= ord(c) < 127 or c == '\n' for c in s):
+        return '(Corr.sos "%s"%%string)' % s.replace('"', '""')
+    return cstr(s)
+
+
 def ccps(cps):
     if not cps:
         return '(@nil N)'
+    if all(32 <= c < 127 for c in cps):
+        return '(Corr.sos "%s"%%string)' % ''.join(chr(c) for c in cps).replace('"', '""')
     return '[' + '; '.join('%d' % c for c in cps) + ']%N'
 
 
@@ -127,7 +139,7 @@ def tv_coq(tv):
     if t == 'i':
         return '(JInt %s)' % cz(int(tv[1]))
     if t == 'f':
-        return '(JNum %s)' % cstr(ftok(float.fromhex(tv[1])))
+        return '(JNum %s)' % ctext(ftok(float.fromhex(tv[1])))
     if t == 't':
         return '(JNum %s)' % ccps(tv[1])
     if t == 's':
@@ -329,7 +341,7 @@ def shrink_tv(tv):
 
 class Codec:
     NAME = "codec"
-    CORR_REQUIRE = "From DV Require Import Common.Str Common.Jv Json.Model Json.Corr."
+    CORR_REQUIRE = "From Coq Require Import String.\nFrom DV Require Import Common.Str Common.Jv Json.Model Json.Corr."
     CORR_CASE_TYPE = "Corr.codec_case"
     CORR_CHECK = "Corr.check_codec"
     CORR_SHOW = "Corr.show_codec"
@@ -377,7 +389,7 @@ class Codec:
     def coq_case(case, obs):
         if not isinstance(obs, dict) or 'text' not in obs:
             return '{| Corr.cc_val := %s; Corr.cc_text := (@nil N) |}' % tv_coq(case['v'])
-        return '{| Corr.cc_val := %s; Corr.cc_text := %s |}' % (tv_coq(case['v']), cstr(obs['text']))
+        return '{| Corr.cc_val := %s; Corr.cc_text := %s |}' % (tv_coq(case['v']), ctext(obs['text']))
 
     @staticmethod
     def oracle(case, obs):
@@ -496,7 +508,7 @@ HAND_TEXTS = ['', ' ', '[]', '{}', '[ ]', '{ }', '[,]', '[1,]', '{"a":1,}', '{,}
 
 class Loads:
     NAME = "loads"
-    CORR_REQUIRE = "From DV Require Import Common.Str Common.Jv Json.Model Json.Corr."
+    CORR_REQUIRE = "From Coq Require Import String.\nFrom DV Require Import Common.Str Common.Jv Json.Model Json.Corr."
     CORR_CASE_TYPE = "Corr.loads_case"
     CORR_CHECK = "Corr.check_loads"
     CORR_SHOW = "Corr.show_loads"
@@ -730,7 +742,7 @@ def key_orders(content):
 
 class Ext:
     NAME = "ext"
-    CORR_REQUIRE = "From DV Require Import Common.Str Common.Jv Json.Model Json.Corr."
+    CORR_REQUIRE = "From Coq Require Import String.\nFrom DV Require Import Common.Str Common.Jv Json.Model Json.Corr."
     CORR_CASE_TYPE = "Corr.ext_case"
     CORR_CHECK = "Corr.check_ext"
     CORR_SHOW = "Corr.show_ext"
@@ -848,7 +860,7 @@ class Ext:
                 return '[0]%N'
             if s not in names:
                 names[s] = 't%d' % len(names)
-                binds.append('let %s := %s in ' % (names[s], cstr(s)))
+                binds.append('let %s := %s in ' % (names[s], ctext(s)))
             return names[s]
         tj = obs['to_json']
         tjs = ('Ok %s' % text(tj['ok'])) if 'ok' in tj else ('Err %s' % cerr(tj['err']))
@@ -922,4 +934,336 @@ class Ext:
                 yield c
 
 
-PARTS = [Codec, Loads, Ext]
+# ------------------------------------------------------------------------------------------------
+# part 4: histories (encode/save -> edit in place -> save -> load; load -> edit -> save -> load; two edits)
+
+TOUCHES = ['to_filename', 'nbsave', 'content', 'get_content', 'sizeondisk', 'str', 'to_json', 'none']
+EDIT_KINDS = ['add_key', 'change_value', 'del_key', 'move_key', 'filter_meta', 'clear_slice_meta']
+
+
+def gen_class_value(rng, shape, slice_dim, cls, depth=1):
+    m = multiplicity(shape, slice_dim, cls)
+    if cls[1] == 'const':
+        return gen_value(rng, depth, False, 3)
+    return ['a', [gen_value(rng, rng.choice([0, 0, 1]), False, 2) for _ in range(m)]]
+
+
+def gen_edit(rng, case, entries):
+    """One in-place edit that keeps the extension valid; `entries` (the generator's view of the current keys)
+    is updated."""
+    shape, sd = case['shape'], case['slice_dim']
+    usable = [cl for cl in valid_classes(shape) if multiplicity(shape, sd, cl) >= 1]
+    kind = rng.choice(EDIT_KINDS)
+    if kind in ('change_value', 'del_key', 'move_key') and not entries:
+        kind = 'add_key'
+    if kind == 'move_key' and len(usable) < 2:
+        kind = 'change_value'
+    if kind == 'add_key':
+        cl = rng.choice(usable)
+        k = gen_keys(rng, 1, {tuple(e[2]) for e in entries})[0]
+        v = gen_class_value(rng, shape, sd, cl)
+        entries.append([cl[0], cl[1], k, v])
+        return {'op': 'set', 'cls': list(cl), 'key': k, 'val': v}
+    if kind == 'change_value':
+        i = rng.randrange(len(entries))
+        b, s, k, _ = entries[i]
+        v = gen_class_value(rng, shape, sd, (b, s))
+        entries[i] = [b, s, k, v]
+        return {'op': 'set', 'cls': [b, s], 'key': k, 'val': v}
+    if kind == 'del_key':
+        i = rng.randrange(len(entries))
+        b, s, k, _ = entries.pop(i)
+        return {'op': 'del', 'cls': [b, s], 'key': k}
+    if kind == 'move_key':
+        i = rng.randrange(len(entries))
+        b, s, k, _ = entries.pop(i)
+        cl = rng.choice([c for c in usable if c != (b, s)])
+        v = gen_class_value(rng, shape, sd, cl)
+        entries.append([cl[0], cl[1], k, v])
+        return {'op': 'move', 'cls': [b, s], 'to': list(cl), 'key': k, 'val': v}
+    if kind == 'filter_meta':
+        drop = [e[2] for e in entries if rng.random() < 0.5]
+        entries[:] = [e for e in entries if e[2] not in drop]
+        return {'op': 'filter', 'keys': drop}
+    entries[:] = [e for e in entries if e[1] != 'slices']
+    return {'op': 'clear_slices'}
+
+
+def apply_edit(ext, ed):
+    def ks(cps):
+        return ''.join(chr(c) for c in cps)
+    op = ed['op']
+    if op == 'set':
+        ext.get_class_dict(tuple(ed['cls']))[ks(ed['key'])] = dec(ed['val'])
+    elif op == 'del':
+        ext.get_class_dict(tuple(ed['cls'])).pop(ks(ed['key']), None)
+    elif op == 'move':
+        ext.get_class_dict(tuple(ed['cls'])).pop(ks(ed['key']), None)
+        ext.get_class_dict(tuple(ed['to']))[ks(ed['key'])] = dec(ed['val'])
+    elif op == 'filter':
+        drop = set(ks(k) for k in ed['keys'])
+        ext.filter_meta(lambda key, vals: key in drop)
+    elif op == 'clear_slices':
+        ext.clear_slice_meta()
+    else:
+        raise ValueError(op)
+
+
+def file_ext_bytes(path):
+    """The extension section of a single-file NIfTI-1, parsed from the raw bytes (no nibabel objects involved):
+    list of (ecode, content with the zero padding removed)."""
+    import gzip, struct
+    with (gzip.open(path, 'rb') if path.endswith('.gz') else open(path, 'rb')) as f:
+        data = f.read()
+    en = '<' if struct.unpack('<i', data[:4])[0] == 348 else '>'
+    vox_offset = int(struct.unpack(en + 'f', data[108:112])[0])
+    out = []
+    if len(data) < 352 or data[348] == 0:
+        return out
+    pos = 352
+    while pos + 8 <= vox_offset:
+        esize, ecode = struct.unpack(en + 'ii', data[pos:pos + 8])
+        if esize < 8 or pos + esize > len(data):
+            break
+        out.append((ecode, data[pos + 8:pos + esize].rstrip(b'\x00')))
+        pos += esize
+    return out
+
+
+class Hist:
+    NAME = "ext_hist"
+    CORR_REQUIRE = "From Coq Require Import String.\nFrom DV Require Import Common.Str Common.Jv Json.Model Json.Corr."
+    CORR_CASE_TYPE = "Corr.hist_case"
+    CORR_CHECK = "Corr.check_hist"
+    CORR_SHOW = "Corr.show_hist"
+    SHARD = 8
+    IMPL_TIMEOUT = 60
+    RULE = ("a valid extension attached to an image is first encoded or written (to_filename, nb.save, .content, get_content, "
+            "get_sizeondisk, str, to_json, or nothing), or is obtained from a file with from_filename (and then optionally touched); it "
+            "is then edited in place through the DcmMeta API (set/change/delete/move a key, filter_meta, clear_slice_meta) and "
+            "written again, once or twice, to .nii or .nii.gz; observation per write = content of the in-memory object, to_json, "
+            "str, the raw extension bytes parsed out of the file, and the extension NiftiWrapper.from_filename finds in the file")
+
+    @staticmethod
+    def gen_cases(rng, tier):
+        n = 96 if tier == 'quick' else 480
+        out = []
+        for i in range(n):
+            c = gen_ext_case(rng, 1)
+            mode = ['save_edit_save', 'load_edit_save'][i % 2]
+            entries = [list(e) for e in c['entries']]
+            nedits = rng.choice([1, 1, 2, 2, 3])
+            # an edit is a group of 1-2 API calls; each group is followed by a write
+            groups = []
+            for _ in range(nedits):
+                groups.append([gen_edit(rng, c, entries) for _ in range(rng.choice([1, 1, 2]))])
+            c['hist'] = {'mode': mode, 'suffix': ['.nii', '.nii.gz'][(i // 2) % 2], 'touch': TOUCHES[(i // 4) % len(TOUCHES)],
+                         'edits': groups}
+            c['kind'] = 'hist/%s/%s/%d' % (mode, c['hist']['touch'], nedits)
+            out.append(c)
+        return out
+
+    @staticmethod
+    def run_impl(case):
+        import copy, shutil, tempfile
+        import numpy as np
+        import nibabel as nb
+        from dcmstack.dcmmeta import NiftiWrapper, dcm_meta_ecode
+        h = case['hist']
+        ext = build_ext(case)
+        img = nb.Nifti1Image(np.zeros(tuple(case['shape']), dtype=np.int16), np.array(ext.affine))
+        img.header.extensions.append(ext)
+        nw = NiftiWrapper(img)
+        obs = {'initial': enc(ext._content), 'points': []}
+        base = os.environ.get('VERIF_WORK') or os.path.join('/verif', 'work')
+        os.makedirs(base, exist_ok=True)
+        tmp = tempfile.mkdtemp(prefix='c09h_', dir=base)
+        try:
+            def touch(w, name):
+                e = w.meta_ext
+                if name == 'to_filename':
+                    w.to_filename(os.path.join(tmp, 'touch' + h['suffix']))
+                elif name == 'nbsave':
+                    nb.save(w.nii_img, os.path.join(tmp, 'touch' + h['suffix']))
+                elif name == 'content':
+                    e.content
+                elif name == 'get_content':
+                    e.get_content()
+                elif name == 'sizeondisk':
+                    e.get_sizeondisk()
+                elif name == 'str':
+                    str(e)
+                elif name == 'to_json':
+                    e.to_json()
+            if h['mode'] == 'load_edit_save':
+                p0 = os.path.join(tmp, 'orig' + h['suffix'])
+                nw.to_filename(p0)
+                nw = NiftiWrapper.from_filename(p0)
+                obs['initial'] = enc(nw.meta_ext._content)
+            touch(nw, h['touch'])
+            obs['touched'] = h['touch'] != 'none' or h['mode'] == 'load_edit_save'
+            for gi, group in enumerate(h['edits']):
+                cur = nw.meta_ext
+                for ed in group:
+                    apply_edit(cur, ed)
+                pt = {'cur': enc(cur._content)}
+                try:
+                    cur.check_valid()
+                    pt['valid'] = 'ok'
+                except Exception as e:
+                    pt['valid'] = errname(e)
+                try:
+                    text = cur.to_json()
+                    pt['to_json'] = {'ok': text}
+                except Exception as e:
+                    text = None
+                    pt['to_json'] = {'err': errname(e)}
+                try:
+                    pt['str'] = {'ok': str(cur)}
+                except Exception as e:
+                    pt['str'] = {'err': errname(e)}
+                p = os.path.join(tmp, 'w%d%s' % (gi, h['suffix']))
+                try:
+                    nw.to_filename(p)
+                    pt['save'] = 'ok'
+                except Exception as e:
+                    pt['save'] = errname(e)
+                if pt['save'] == 'ok':
+                    exts = [c for code, c in file_ext_bytes(p) if code == dcm_meta_ecode]
+                    pt['n_ext'] = len(exts)
+                    try:
+                        pt['file'] = exts[0].decode('utf-8') if exts else None
+                    except UnicodeDecodeError:
+                        pt['file'] = None
+                    try:
+                        e2 = NiftiWrapper.from_filename(p).meta_ext
+                        snapshot = copy.deepcopy(cur._content)
+                        r = {'content': enc(e2._content), 'eq': bool(e2 == cur) and bool(cur == e2),
+                             'exact': same(e2._content, snapshot), 'order': key_orders(e2._content) == key_orders(snapshot)}
+                        try:
+                            r['reser'] = e2.to_json()
+                        except Exception as e:
+                            r['reser_err'] = errname(e)
+                        # what the in-memory object says about itself after the write must still be the same
+                        r['mem_after'] = (cur.to_json() == text) if text is not None else False
+                        pt['reload'] = r
+                    except Exception as e:
+                        pt['reload'] = {'err': errname(e), 'msg': str(e)[:200]}
+                obs['points'].append(pt)
+                if h['mode'] == 'load_edit_save' and gi % 2 == 1 and pt.get('save') == 'ok':
+                    # continue the history from the file just written
+                    try:
+                        nw = NiftiWrapper.from_filename(p)
+                    except Exception:
+                        pass
+        finally:
+            shutil.rmtree(tmp, ignore_errors=True)
+        return obs
+
+    @staticmethod
+    def coq_case(case, obs):
+        def cerr(name):
+            return name if name in ERRMAP.values() else 'ECrash'
+        if not isinstance(obs, dict) or 'points' not in obs:
+            return '{| Corr.hc_initial := JNull; Corr.hc_touched := false; Corr.hc_points := [] |}'
+        names, binds = {}, []
+
+        def share(key, lit):
+            if key not in names:
+                names[key] = 'x%d' % len(names)
+                binds.append('let %s := %s in ' % (names[key], lit))
+            return names[key]
+
+        def text(s):
+            return share('T' + s, ctext(s)) if isinstance(s, str) else '[0]%N'
+
+        def val(tv):
+            return share('V' + json.dumps(tv), tv_coq(tv))
+        pts = []
+        for pt in obs['points']:
+            valid = 'Ok tt' if pt['valid'] == 'ok' else 'Err %s' % cerr(pt['valid'])
+            tj = pt['to_json']
+            tjs = ('Ok %s' % text(tj['ok'])) if 'ok' in tj else ('Err %s' % cerr(tj['err']))
+            st = text(pt['str'].get('ok'))
+            fl = '(Some %s)' % text(pt.get('file')) if pt.get('save') == 'ok' else 'None'
+            rl = pt.get('reload') or {'err': 'ECrash'}
+            ld = ('Ok %s' % val(rl['content'])) if 'content' in rl else ('Err %s' % cerr(rl.get('err', 'ECrash')))
+            pts.append('{| Corr.sp_content := %s; Corr.sp_valid := %s; Corr.sp_to_json := %s; Corr.sp_str := %s; '
+                       'Corr.sp_file := %s; Corr.sp_loaded := %s |}' % (val(pt['cur']), valid, tjs, st, fl, ld))
+        init = val(obs['initial'])
+        return ('(%s{| Corr.hc_initial := %s; Corr.hc_touched := %s; Corr.hc_points := %s |})'
+                % (''.join(binds), init, cbool(bool(obs.get('touched'))), clist(pts)))
+
+    @staticmethod
+    def oracle(case, obs):
+        if not isinstance(obs, dict) or 'points' not in obs:
+            return 'history crashed: %s' % (obs.get('crash') if isinstance(obs, dict) else obs)
+        if len(obs['points']) != len(case['hist']['edits']):
+            return 'history stopped early'
+        for i, pt in enumerate(obs['points']):
+            w = 'write %d after in-place edit' % (i + 1)
+            if 'ok' not in pt['to_json']:
+                return '%s: to_json failed on the edited (valid) extension: %s' % (w, pt['to_json']['err'])
+            text = pt['to_json']['ok']
+            if pt['str'].get('ok') != text:
+                return '%s: str(ext) is not the JSON of the edited extension' % w
+            if pt.get('save') != 'ok':
+                return '%s: to_filename failed: %s' % (w, pt.get('save'))
+            if pt.get('n_ext') != 1:
+                return '%s: file holds %s DcmMeta extensions' % (w, pt.get('n_ext'))
+            if pt.get('file') != text:
+                return '%s: extension bytes stored in the file are not to_json() of the in-memory extension' % w
+            r = pt.get('reload') or {}
+            if 'err' in r:
+                return '%s: reading the file back failed: %s' % (w, r['err'])
+            if not r.get('eq'):
+                return '%s: extension read back is not equal (==) to the edited in-memory extension' % w
+            if not r.get('exact') or not r.get('order'):
+                return '%s: extension read back differs from the edited in-memory extension (keys, classes, values or order)' % w
+            if r.get('reser') != text:
+                return '%s: re-serialised JSON of the extension read back is not byte-identical' % w
+            if not r.get('mem_after'):
+                return '%s: to_json of the in-memory extension changed by writing it' % w
+        return None
+
+    @staticmethod
+    def signature(case, obs, msg):
+        return 'hist/' + msg.split(':', 1)[-1].strip().replace(' ', '-')[:60]
+
+    @staticmethod
+    def nontrivial(case, obs):
+        return True
+
+    @staticmethod
+    def shrink(case):
+        h = case['hist']
+        used = set()
+        for g in h['edits']:
+            for ed in g:
+                if 'key' in ed:
+                    used.add(tuple(ed['key']))
+                for k in ed.get('keys', []):
+                    used.add(tuple(k))
+        if len(h['edits']) > 1:
+            for i in range(len(h['edits'])):
+                c = dict(case); c['hist'] = dict(h, edits=h['edits'][:i] + h['edits'][i + 1:])
+                yield c
+        for i, g in enumerate(h['edits']):
+            if len(g) > 1:
+                for j in range(len(g)):
+                    c = dict(case); c['hist'] = dict(h, edits=h['edits'][:i] + [g[:j] + g[j + 1:]] + h['edits'][i + 1:])
+                    yield c
+        if case.get('extra'):
+            c = dict(case); c['extra'] = []
+            yield c
+        if case.get('reorient') is not None:
+            c = dict(case); c['reorient'] = None
+            yield c
+        ents = case['entries']
+        for i in range(len(ents)):
+            if tuple(ents[i][2]) not in used:
+                c = dict(case); c['entries'] = ents[:i] + ents[i + 1:]
+                yield c
+
+
+PARTS = [Codec, Loads, Ext, Hist]
